@@ -351,10 +351,39 @@ theorem html_table_inside_filter :
   decide +kernel
 
 /-- the only code of output.rs that is compiled without `verif_hooks` but not with it is the
-    dereference of the current target; every write of `Output` exists once, for both builds (the
-    harness additionally runs the sink-level streams against the unhooked build) -/
+    dereference of the current target; every write of `Output` exists once, for both builds.
+    NOTE: `target()` itself differs between the builds (hooked: a logging tap that turns a
+    `write_fmt` into `write_str`/`write_char` calls; unhooked: the concrete target), so an override
+    of `write_fmt`/`write_char` on a concrete target (`WriteWrapper`, `String`, `NullWriter`) is
+    reachable only in the unhooked build: the harness runs all sink-level streams, in particular
+    every user-writer program, against the unhooked build as well, and
+    `writewrapper_methods_store` pins the adapter's method set. -/
 theorem unhooked_bodies_pinned :
     MJ.Gen.c19UnhookedBodies = [("target", "unsafe·{·&mut·*self.target·}")] := by
+  decide +kernel
+
+/-- **The adapter stores the error**: whenever a `fmt::Write` method of `WriteWrapper` reports
+    `fmt::Error`, the error slot holds the error with which the sink's last call failed (and that
+    call is the last one logged); when it reports success the slot is unchanged. -/
+theorem adapter_stores_error (w : WriteWrapper) (c : Chunk) :
+    ((put w c).2 = false → ∃ e new, (put w c).1.err = some e ∧ (put w c).1.calls = w.calls ++ new ∧
+        FailsWith new e) ∧
+    ((put w c).2 = true → (put w c).1.err = w.err) := by
+  obtain ⟨_, _, h3⟩ := writeAll_spec w.script c.bytes
+  rw [put_wrapper]
+  simp only [WriteWrapper.writeBytes]
+  cases he : (writeAll w.script c.bytes).err with
+  | none => simp
+  | some e => exact ⟨fun _ => ⟨e, _, rfl, rfl, h3 e he⟩, by simp⟩
+
+example : (put (⟨[.accept 1, .err ⟨.other, 2⟩], [], none⟩ : WriteWrapper) (.chr [195, 169])).1.err
+    = some ⟨.other, 2⟩ := by decide
+
+/-- the methods implemented in `impl fmt::Write for WriteWrapper` (regenerated from the source)
+    are exactly the two of the model, and each stores the io::Error on every failing path; an
+    additional override (e.g. a `write_fmt` fast path) is a new row and has to be modelled -/
+theorem writewrapper_methods_store :
+    MJ.Gen.c19WriteWrapperMethods = [("write_str", true), ("write_char", true)] := by
   decide +kernel
 
 end MJ.C19
